@@ -104,18 +104,20 @@ def h_history(ctx, plan, pool):
       bid = ctx.int('bid%d' % i, 0, 5)
       use_none = ctx.bool('nobuf%d' % i)
       outport = 2 if op == 'P' else 3
+      drop = bool(ctx.bool('drop%d' % i))          # an empty action list: the buffered packet is dropped - and its buffer released all the same
+      acts = [] if drop else [of.ofp_action_output(port=outport)]
       if op == 'P':
-        msg = of.ofp_packet_out(in_port=0xffff, actions=[of.ofp_action_output(port=outport)])
+        msg = of.ofp_packet_out(in_port=0xffff, actions=acts)
         msg.buffer_id = None if use_none else bid
         if use_none: msg.data = new_frame(40 + i)
       else:
-        msg = of.ofp_flow_mod(command=0, priority=9, actions=[of.ofp_action_output(port=outport)])
+        msg = of.ofp_flow_mod(command=0, priority=9, actions=acts)
         msg.match.in_port = 7                       # matches nothing that arrives in this history
         msg.buffer_id = None if use_none else bid
       rx(msg)
       if use_none:
         if op == 'P':
-          ctx.check('packet_out with data emits that data once', len(outs) == no + 1 and outs[-1][0] == outport)
+          ctx.check('packet_out with data emits that data once (never with an empty action list)', len(outs) == no + (0 if drop else 1) and (drop or outs[-1][0] == outport))
         else:
           ctx.check('flow_mod without buffer emits nothing', len(outs) == no)
       else:
@@ -123,9 +125,10 @@ def h_history(ctx, plan, pool):
         if b in live:
           raw, inp = live.pop(b)
           ctx.witness('released')
-          ok = len(outs) == no + 1
-          ctx.check('live id: exactly one frame emitted', ok)
-          if ok:
+          ok = len(outs) == no + (0 if drop else 1)
+          ctx.check('live id: exactly one frame emitted (none for an empty action list)', ok)
+          if drop: ctx.witness('dropped')
+          if ok and not drop:
             ctx.check('live id: emitted on the action port', outs[-1][0] == outport)
             ctx.check('live id: emitted frame is the stored one', ctx.Eq(outs[-1][1], raw))
           ctx.check('live id: slot freed', sw._packet_buffer[b - 1] is None)
@@ -150,6 +153,6 @@ def obligations(tier):
   pools = [0, 1, 2, 3] + ([4] if thorough else [])
   cases = [dict(plan=p, pool=k) for p in plans for k in pools]
   BOUNDS[tier] = dict(histories=plans, pool_sizes=pools, frame_bytes=L, legend="m=table miss, c=hit on a send-to-controller flow (symbolic max_len), "
-                      "P=packet_out(symbolic buffer id 0..5 or none+data), F=flow_mod(symbolic buffer id or none), S=set_config(symbolic miss_send_len)")
-  return [Obligation('O1_history', h_history, cases, witnesses=('done', 'buffered', 'pool-full', 'released', 'stale'), max_decisions=20000,
+                      "P=packet_out(symbolic buffer id 0..5 or none+data; output or empty action list), F=flow_mod(symbolic buffer id or none; output or empty action list), S=set_config(symbolic miss_send_len)")
+  return [Obligation('O1_history', h_history, cases, witnesses=('done', 'buffered', 'pool-full', 'released', 'stale', 'dropped'), max_decisions=20000,
                      desc='buffer pool vs reference over symbolic histories')]
